@@ -7,6 +7,7 @@ import (
 	"crypto/sha256"
 	"fmt"
 	"go/types"
+	"os"
 	"strings"
 )
 
@@ -76,8 +77,21 @@ func init() {
 				panic(pathAbort{"unsupported", "verifOutput of symbolic text"})
 			}
 			h := sha256.Sum256([]byte(txt))
-			fr.i.ps.outputs = append(fr.i.ps.outputs, fmt.Sprintf("%s=%x", key, h[:8]))
+			d := fmt.Sprintf("%s=%x", key, h[:8])
+			fr.i.ps.outputs = append(fr.i.ps.outputs, d)
+			fr.i.ps.outTexts = append(fr.i.ps.outTexts, txt)
 			return nil
+		},
+		"verifHostFile": func(fr *frame, args []value) value {
+			// concrete content of a file of the host file system (corpus input)
+			b, err := os.ReadFile(fr.i.concreteString(args[0], "verifHostFile"))
+			if err != nil {
+				panic(pathAbort{"unsupported", "verifHostFile: " + err.Error()})
+			}
+			return string(b)
+		},
+		"verifEnv": func(fr *frame, args []value) value {
+			return os.Getenv(fr.i.concreteString(args[0], "verifEnv"))
 		},
 		"verifIsSymbolic": func(fr *frame, args []value) value {
 			a := args[0].(iface)
